@@ -11,6 +11,6 @@ CFG = {
     'timeout': {'quick': 900, 'thorough': 3400},
     'gomaxprocs': 2,
     'rule': 'scenario = (p, a, b, height, client lifetime, warmth | concurrent policy); a class is (fork|consistent, phase, outcome) per lookup, scenario kind x lifetime x warmth, concurrent policy x winner, security-error per phase.',
-    'floors': {'all': [('fork:phase2-B:refused', 1), ('security-error:phase2-B', 1), ('consistent:phase2-B:served', 1), ('conc:cas-conflict-forced', 1), ('conc:random:winner=A', 1)]},
+    'floors': {'all': [('fork:phase2-B:refused', 1), ('security-error:phase2-B', 1), ('consistent:phase2-B:served', 1), ('conc:cas-conflict-forced', 1), ('conc:random:winner=A', 1), ('one-client:install-race-forced', 1), ('one-client:install-race-retry-observed', 1), ('growing:write-conflict-observed', 1)]},
     'assumptions': ['Ed25519 signatures cannot be forged and SHA-256 has no collisions'],
 }
